@@ -732,9 +732,17 @@ int sim_main(int argc, char **argv) {
             g_log.reset();
             ctx_clear();
             scrub_stack();
-            alarm(e->hang_timeout_s()); // backstop only: a run that never returns kills the worker
-            Outcome o = e->execute(p);
-            alarm(0);
+            Outcome o;
+            unsigned cold = e->cold_start_every();
+            if (cold && idx % cold == cold - 1) {
+                GuardedResult gr = guarded_execute(*e, p);
+                o = gr.out;
+                stat("cold_start_runs");
+            } else {
+                alarm(e->hang_timeout_s()); // backstop only: a run that never returns kills the worker
+                o = e->execute(p);
+                alarm(0);
+            }
             runs++;
             cases += o.cases;
             if (o.cls == "skip") skips++;
